@@ -558,7 +558,10 @@ def check(prop, tier, seed):
     for sig, (ss, c, d, cnt) in list(reported.items())[:6]:
         fault = d.get("fault")
         same = (lambda dd, fault=fault: (dd.get("fault") == fault) if fault else ("fault" not in dd))
-        small, sd = shrink(c, ss.cfg, os.path.join(rundir, "shrink"), same, ss.extra_defs, ss.tag, phase2=ss.phase2)
+        if fault and "timeout" in str(fault):
+            small, sd = c, d      # every shrinking step of a hang costs a full time budget
+        else:
+            small, sd = shrink(c, ss.cfg, os.path.join(rundir, "shrink"), same, ss.extra_defs, ss.tag, phase2=ss.phase2)
         sd = sd or d
         name = "%s_%s_%s" % (sig[0] or c[1], sig[1], hashlib.sha1(repr(sig).encode()).hexdigest()[:8])
         rp = write_replay(prop, name, {
